@@ -2339,6 +2339,29 @@ def translate_all(repo, header, errors, only=None):
         lines.append("")
         lines.append("end Sq")
         texts[out] = "\n".join(lines) + "\n"
+    if only is None and not errors:
+        # trap-freedom obligations of everything translated (extract/rs2safe.py)
+        import rs2safe
+        lines = [header, "import SqModel.Generated.TransTable", "", "namespace Sq", "set_option linter.unusedVariables false", ""]
+        total = 0
+        names = []
+        for out, imports, plan, structs in plans:
+            for k in toposort(wanted[out], {x: deps[x] for x in wanted[out]}):
+                try:
+                    txt, n = rs2safe.safe_def(ctx, ctx.fns[k])
+                except (TErr, R.ParseError) as e:
+                    errors.append(f"{ctx.fns[k].file} :: {k}: safety pass: {e}")
+                    continue
+                total += n
+                names.append(ctx.lean_name(ctx.fns[k]) + ".safe")
+                lines.append(f"/-- what `{k}` needs in order not to trap (`{ctx.fns[k].file}`) -/")
+                lines.append(txt)
+                lines.append("")
+        lines.append(f"/-- {total} obligations in {len(names)} propositions -/")
+        lines.append("def T.safe_names : List String := [" + ", ".join('"' + n + '"' for n in names) + "]")
+        lines.append("")
+        lines.append("end Sq")
+        texts["TransSafe.lean"] = "\n".join(lines) + "\n"
     return texts, ctx
 
 
